@@ -112,6 +112,16 @@ func zzH_C03_ops() {
 		pos = np
 		verifReach("line-ok")
 	}
+	// whatever the operations consumed, the unread rest of the stream is still there, once and in order
+	var rest []byte
+	for k := 0; k <= n; k++ {
+		buf := b.popBuffer()
+		if buf == nil {
+			break
+		}
+		rest = append(rest, buf...)
+	}
+	zzSameBytes(rest, stream[pos:], "rest")
 	verifReach("ops-done")
 }
 
